@@ -51,7 +51,7 @@ class LifeAdapter(c16.SysAdapter):
             return c16.SysAdapter._step(self, w, l)
         s = w['sys']
         obs = {'raises': ''}
-        before = c16.fingerprint(s)
+        before = c16.fingerprint(copy.deepcopy(s))        # read off a copy: no observer effect on the System itself
         with warnings.catch_warnings():
             warnings.simplefilter('ignore')
             try:
